@@ -643,124 +643,213 @@ func reaches(from, to, avoid *ssa.BasicBlock) bool {
 }
 
 func runC07Ctype(c *Ctx) {
-	ctors := map[string]bool{"geom.NewPolygon": true, "geom.NewMultiPoint": true, "geom.NewMultiLineString": true, "geom.NewMultiPolygon": true, "geom.NewGeometryCollection": true}
-	// derivedFromCtype: v's operand tree contains a load of twkbParser.ctype
-	fromCtype := func(v ssa.Value) bool {
-		seen := map[ssa.Value]bool{}
-		var rec func(v ssa.Value, d int) bool
-		rec = func(v ssa.Value, d int) bool {
-			if v == nil || d > 12 || seen[v] {
-				return false
-			}
-			seen[v] = true
-			if sn, fl, _, ok := fieldLoad(v); ok && sn == "twkbParser" && fl == "ctype" {
-				return true
-			}
-			switch x := v.(type) {
-			case *ssa.Call:
-				for _, a := range x.Call.Args {
-					if rec(a, d+1) {
-						return true
-					}
+	var set []*ssa.Function
+	for _, f := range c.P.methodsOf("geom", "twkbParser") {
+		if f.Parent() == nil {
+			set = append(set, f)
+		}
+	}
+	n := checkCtypeFlow(c, set, func(v ssa.Value) bool {
+		sn, fl, _, ok := fieldLoad(v)
+		return ok && sn == "twkbParser" && fl == "ctype"
+	}, "the header's coordinates type (p.ctype)")
+	if n < 14 {
+		c.Errorf("only %d non-error returns of twkbParser routines found", n)
+	}
+}
+
+var collectionCtors = map[string]bool{"geom.NewPolygon": true, "geom.NewMultiPoint": true, "geom.NewMultiLineString": true, "geom.NewMultiPolygon": true, "geom.NewGeometryCollection": true}
+
+var geomTypeNames = map[string]bool{"Point": true, "LineString": true, "Polygon": true, "MultiPoint": true, "MultiLineString": true, "MultiPolygon": true, "GeometryCollection": true, "Geometry": true}
+
+// dependsOn: v's defining expression tree (call arguments, struct field
+// stores of local composite values, conversions) contains a source value.
+func dependsOn(v ssa.Value, isSource func(ssa.Value) bool) bool {
+	seen := map[ssa.Value]bool{}
+	var rec func(v ssa.Value, d int) bool
+	rec = func(v ssa.Value, d int) bool {
+		if v == nil || d > 12 || seen[v] {
+			return false
+		}
+		seen[v] = true
+		if isSource(v) {
+			return true
+		}
+		switch x := v.(type) {
+		case *ssa.Call:
+			for _, a := range x.Call.Args {
+				if rec(a, d+1) {
+					return true
 				}
-			case *ssa.UnOp:
-				if x.Op == token.MUL {
-					// load of a local struct: any store into its fields from ctype
-					if a, ok := x.X.(*ssa.Alloc); ok {
-						for _, r := range *a.Referrers() {
-							switch y := r.(type) {
-							case *ssa.Store:
-								if y.Addr == a && rec(y.Val, d+1) {
+			}
+		case *ssa.UnOp:
+			if x.Op == token.MUL {
+				if a, ok := x.X.(*ssa.Alloc); ok {
+					for _, r := range *a.Referrers() {
+						switch y := r.(type) {
+						case *ssa.Store:
+							if y.Addr == a && rec(y.Val, d+1) {
+								return true
+							}
+						case *ssa.FieldAddr:
+							for _, rr := range *y.Referrers() {
+								if st, ok := rr.(*ssa.Store); ok && st.Addr == y && rec(st.Val, d+1) {
 									return true
-								}
-							case *ssa.FieldAddr:
-								for _, rr := range *y.Referrers() {
-									if st, ok := rr.(*ssa.Store); ok && st.Addr == y && rec(st.Val, d+1) {
-										return true
-									}
 								}
 							}
 						}
 					}
 				}
-				return rec(x.X, d+1)
-			case *ssa.Extract:
-				return rec(x.Tuple, d+1)
-			case *ssa.ChangeType:
-				return rec(x.X, d+1)
-			case *ssa.Convert:
-				return rec(x.X, d+1)
-			case *ssa.MakeInterface:
-				return rec(x.X, d+1)
-			case *ssa.Phi:
-				for _, e := range x.Edges {
-					if !rec(e, d+1) {
-						return false
-					}
-				}
-				return len(x.Edges) > 0
 			}
-			return false
+			return rec(x.X, d+1)
+		case *ssa.Extract:
+			return rec(x.Tuple, d+1)
+		case *ssa.ChangeType:
+			return rec(x.X, d+1)
+		case *ssa.Convert:
+			return rec(x.X, d+1)
+		case *ssa.MakeInterface:
+			return rec(x.X, d+1)
+		case *ssa.Phi:
+			for _, e := range x.Edges {
+				if !rec(e, d+1) {
+					return false
+				}
+			}
+			return len(x.Edges) > 0
 		}
-		return rec(v, 0)
+		return false
+	}
+	return rec(v, 0)
+}
+
+// checkCtypeFlow: every geometry a routine of `set` returns on a non-error
+// path carries the coordinates type given by the source.
+func checkCtypeFlow(c *Ctx, set []*ssa.Function, isSource func(ssa.Value) bool, srcDesc string) int {
+	inSet := map[*ssa.Function]bool{}
+	for _, f := range set {
+		inSet[f] = true
 	}
 	n := 0
-	for _, f := range c.P.methodsOf("geom", "twkbParser") {
-		if f.Parent() != nil {
-			continue
-		}
+	for _, f := range set {
 		res := f.Signature.Results()
-		if res.Len() < 2 || !isErrorType(res.At(res.Len()-1).Type()) {
+		if res.Len() < 1 {
 			continue
 		}
 		rt := namedName(res.At(0).Type())
-		switch rt {
-		case "Point", "LineString", "Polygon", "MultiPoint", "MultiLineString", "MultiPolygon", "GeometryCollection":
-		default:
+		if !geomTypeNames[rt] {
 			continue
 		}
+		hasErr := res.Len() >= 2 && isErrorType(res.At(res.Len()-1).Type())
 		fn := FuncName(f)
 		for _, r := range returnsOf(f) {
-			if !isNilConst(r.Results[len(r.Results)-1]) {
-				continue // error path
+			if hasErr && provablyNonNilErr(r) {
+				continue
+			}
+			if hasErr && !isNilConst(r.Results[len(r.Results)-1]) {
+				// `return x.AsGeometry(), err`: the value half is checked like a success value
 			}
 			n++
-			v := r.Results[0]
 			construct := "non-error return of " + rt
-			// (1) forwarding another parser routine's result
-			if ex, ok := v.(*ssa.Extract); ok {
-				if call, ok := ex.Tuple.(*ssa.Call); ok {
-					if cal := staticCallee(call); cal != nil && cal.Signature.Recv() != nil && namedName(cal.Signature.Recv().Type()) == "twkbParser" {
-						c.OK(r.Pos(), fn, construct+" via "+cal.Name(), "forwards the result of another parser routine (checked there)")
-						continue
+			var check func(v ssa.Value, depth int) (string, bool, string)
+			check = func(v ssa.Value, depth int) (via string, ok bool, why string) {
+				if depth > 6 {
+					return "", false, "value too deeply nested to analyse"
+				}
+				v = stripLoad(v)
+				switch x := v.(type) {
+				case *ssa.Extract:
+					if call, isCall := x.Tuple.(*ssa.Call); isCall {
+						if cal := staticCallee(call); cal != nil && inSet[cal] {
+							return "via " + cal.Name(), true, "forwards the result of another routine of the same decoder (checked there)"
+						}
 					}
+				case *ssa.Phi:
+					for _, e := range x.Edges {
+						if via, ok, why := check(e, depth+1); !ok {
+							return via, false, why
+						}
+					}
+					return "via phi", true, "every incoming value is typed"
+				case *ssa.Const:
+					return "", false, "returns a zero-value literal, which is XY regardless of " + srcDesc + ": an empty geometry silently loses Z/M (and strips them from its siblings in a collection)"
+				case *ssa.Call:
+					name := calleeName(x)
+					if cal := staticCallee(x); cal != nil && inSet[cal] {
+						return "via " + cal.Name(), true, "forwards the result of another routine of the same decoder (checked there)"
+					}
+					if cal := staticCallee(x); cal != nil && cal.Name() == "AsGeometry" && len(x.Call.Args) == 1 {
+						via, ok, why := check(x.Call.Args[0], depth+1)
+						return via, ok, why
+					}
+					if collectionCtors[name] {
+						list := x.Call.Args[0]
+						if nonEmptyGuard(r, list) || madeNonEmpty(r, list) {
+							return "via " + name, true, "list argument is provably non-empty (dominating guard), so the constructor derives the type from typed members"
+						}
+						return "via " + name, false, "collection constructor over a possibly empty list yields an XY geometry regardless of " + srcDesc + "; one such empty member strips Z/M from its siblings"
+					}
+					if dependsOn(v, isSource) {
+						return "via " + name, true, "value is built from " + srcDesc
+					}
+					return "via " + name, false, "returned geometry does not depend on " + srcDesc
 				}
-			}
-			call, isCall := v.(*ssa.Call)
-			if !isCall {
-				c.Bad(r.Pos(), fn, construct, "returns a value that is not built from the header's coordinates type (e.g. a zero literal), so an empty geometry silently becomes XY")
-				continue
-			}
-			name := calleeName(call)
-			if ctors[name] {
-				list := call.Call.Args[0]
-				if nonEmptyGuard(r, list) {
-					c.OK(r.Pos(), fn, construct+" via "+name, "list argument is non-empty by a dominating len != 0 guard, so the constructor derives the type from typed members")
-				} else {
-					c.Bad(r.Pos(), fn, construct+" via "+name, "collection constructor over a possibly empty list yields an XY geometry regardless of the header's coordinates type; one such empty member strips Z/M from its siblings")
+				if dependsOn(v, isSource) {
+					return "", true, "value is built from " + srcDesc
 				}
-				continue
+				return "", false, "returned geometry does not depend on " + srcDesc
 			}
-			if fromCtype(v) {
-				c.OK(r.Pos(), fn, construct+" via "+name, "value is built from p.ctype")
+			via, ok, why := check(r.Results[0], 0)
+			if via != "" {
+				construct += " " + via
+			}
+			if ok {
+				c.OK(r.Pos(), fn, construct, why)
 			} else {
-				c.Bad(r.Pos(), fn, construct+" via "+name, "returned geometry does not depend on p.ctype")
+				c.Bad(r.Pos(), fn, construct, why)
 			}
 		}
 	}
-	if n < 14 {
-		c.Errorf("only %d non-error returns of twkbParser routines found", n)
+	return n
+}
+
+// madeNonEmpty: list is make([]T, L) and a guard at `at` establishes L != 0
+// (L possibly converted, or a len() expression compared elsewhere).
+func madeNonEmpty(at ssa.Instruction, list ssa.Value) bool {
+	ms, ok := stripLoad(list).(*ssa.MakeSlice)
+	if !ok {
+		return false
 	}
+	l := ms.Len
+	if cv, ok := l.(*ssa.Convert); ok {
+		l = cv.X
+	}
+	for _, g := range guardsAt(at) {
+		bo, ok := g.Cond.(*ssa.BinOp)
+		if !ok {
+			continue
+		}
+		for _, pr := range [][2]ssa.Value{{bo.X, bo.Y}, {bo.Y, bo.X}} {
+			a := pr[0]
+			if cv, ok := a.(*ssa.Convert); ok {
+				a = cv.X
+			}
+			if !(a == l || sameValue(a, l)) {
+				continue
+			}
+			k, ok := constInt(pr[1])
+			if !ok || k != 0 {
+				continue
+			}
+			switch {
+			case bo.Op == token.EQL && !g.Truth, bo.Op == token.NEQ && g.Truth:
+				return true
+			case bo.Op == token.GTR && g.Truth && pr[0] == bo.X:
+				return true
+			}
+		}
+	}
+	return false
 }
 
 // nonEmptyGuard: a guard at the return establishes len(list) != 0.
